@@ -90,7 +90,7 @@ let name_classes (cx : ctx) (o : socc option) = match o with
           (if global_writes cx.sw n = [] then ["undefined_global"] else [])
           @ (if split_global cx.sw n then ["split_global"] else [])
           @ (if global_mixed_levels cx.sw n then ["global_mixed_levels"] else [])
-          @ (if same_pos_other_file cx.sw n then ["same_pos_other_file"] else [])
+          (* same_pos_other_file: repaired (fixes/C06-same-pos-other-file.diff), no class any more *)
         | BLocal _ -> [])
 
 let any_name_classes (cx : ctx) (o : socc option) = match o with
@@ -119,10 +119,10 @@ let skipped_at (cx : ctx) ~docend_empty (f : n list) (line1 : z) (col : z) : boo
   | Some p -> (match fst (cursor p ~docend_empty (zi line1 - 1) (zi col)) with CSkip _ -> true | _ -> false)
 let name_at cx ~docend_empty f line1 col =
   if skipped_at cx ~docend_empty f line1 col then raise Ambig else name_at cx ~docend_empty f line1 col
-let m_define cx f line1 col = match name_at cx ~docend_empty:true f line1 col with
+let m_define cx f line1 col = match name_at cx ~docend_empty:false f line1 col with
   | Some (p, (g, s)) -> (match define_at_wide g cx.mw p.fnb p.fi s line1 col with Some l -> l | None -> raise Ambig)
   | None -> []
-let m_refs mode cx f line1 col = match name_at cx ~docend_empty:true f line1 col with
+let m_refs mode cx f line1 col = match name_at cx ~docend_empty:false f line1 col with
   | Some (p, (g, s)) -> (match references_at_wide mode g cx.mw p.fnb p.fi s line1 col with Some l -> l | None -> raise Ambig)
   | None -> []
 let m_highlight cx f line1 col = List.map snd (m_refs MHighlight cx f line1 col)
@@ -134,7 +134,8 @@ let m_hover_local cx f line1 col = match name_at cx ~docend_empty:false f line1 
 let eval_step (leg : string) (cx : ctx) (st : srv_step) : (string * string * string) option =
   let pos_query op i line col (k : pf -> (bool * n list) -> socc option -> bool -> string * string * string list) =
     let p = cx.files.(i) in
-    let docend_empty = (op <> "hover") in
+    (* since fixes/C05-doc-end.diff no handler gives up at offset = len(contents) (before: all but hover did) *)
+    let docend_empty = (ignore op; false) in
     let (c, docend) = cursor p ~docend_empty line col in
     let o = if p.parsed then occ_at p.so (z1 line) (z_of_int col) else None in
     match c with
@@ -143,10 +144,10 @@ let eval_step (leg : string) (cx : ctx) (st : srv_step) : (string * string * str
       let empty = (match op with "hover" -> "hover=none" | _ -> op ^ "=[]") in
       (* the property still demands an answer when an occurrence is under the cursor *)
       let (_, s, cl) = (match o with Some _ -> k p (false, []) o true | None -> (empty, "-", [])) in
-      Some (empty, s, cls_s ((if docend then ["doc_end"] else []) @ cl))
+      Some (empty, s, cls_s ((ignore docend; cl)))
     | CName s ->
       let (m, sp, cl) = k p s o false in
-      Some (m, sp, cls_s ((if docend then ["doc_end"] else []) @ cl)) in
+      Some (m, sp, cls_s ((ignore docend; cl))) in
   match st with
   | StDefine (i, line, col) ->
     pos_query "define" i line col (fun p (g, s) o empty ->
